@@ -76,21 +76,22 @@ var aliasOps = []weighted{
 	{"Concat", 2}, {"SOr", 1}, {"SAnd", 1}, {"Merge", 1}, {"Extract", 1},
 	{"SetValue", 4}, {"SetValues", 5}, {"InsertValues", 5}, {"AppendValues", 5}, {"AddValues", 4}, {"DelValues", 3},
 	{"AppendValue", 2}, {"AddValue", 2}, {"Push", 2}, {"Pop", 1}, {"ASet", 3}, {"ARemove", 1}, {"SortValues", 1}, {"ReverseValues", 1},
+	{"AssocSet", 3}, {"InsertValue", 2},
 }
 var sortOps = []weighted{
 	{"NewSlice", 4}, {"FromArray", 6}, {"MakeArr", 1}, {"NewASlice", 2}, {"FromArrayA", 3},
 	{"SortValues", 8}, {"SortWith", 12}, {"ReverseValues", 6}, {"ShuffleValues", 6}, {"ASort", 3}, {"ASortWith", 3}, {"AReverse", 3}, {"AShuffle", 3},
-	{"AppendValue", 3}, {"SetValue", 2}, {"ASet", 2},
+	{"AppendValue", 3}, {"SetValue", 2}, {"ASet", 2}, {"SortSlice", 10}, {"SliceSet", 4},
 }
 
 var profiles = map[string]profile{
 	"C01": {types: []string{"int", "string", "float64", "[]int", "any"}, setup: []string{"NewSlice", "FromArray", "MakeEmpty", "MakeArr"}, ops: listOps, minLen: 4, maxLen: 40},
-	"C02": {types: []string{"int", "string", "[]int", "any", "setint", "int"}, setup: []string{"NewSlice", "MakeSetColl", "MakeEmpty"}, ops: setOps, minLen: 4, maxLen: 60},
+	"C02": {types: []string{"int", "string", "[]int", "any", "setint", "int", "[][]int"}, setup: []string{"NewSlice", "MakeSetColl", "MakeEmpty"}, ops: setOps, minLen: 4, maxLen: 60},
 	"C03": {types: []string{"string", "int", "rune", "float64", "any", "*PK"}, setup: []string{"MakeEmptyA", "NewASlice", "NewSlice"}, ops: catalogOps, minLen: 4, maxLen: 50},
 	"C09": {types: []string{"int", "string", "any", "int"}, setup: []string{"NewSlice", "FromArray"}, ops: sortOps, minLen: 3, maxLen: 25},
 	"C13": {types: []string{"int", "string", "any"}, setup: []string{"NewSlice", "MakeCap", "MakeEmpty"}, ops: stackOps, minLen: 4, maxLen: 60},
 	"C14": {types: []string{"string", "int", "rune", "any"}, setup: []string{"MakeEmptyA", "NewASlice", "NewGoMap", "NewSlice"}, ops: mapOps, minLen: 4, maxLen: 50},
-	"C15": {types: []string{"int", "string", "[]int", "any", "setint"}, setup: []string{"NewSlice", "NewSlice", "FromArray", "FromArray"}, ops: setAlgebraOps, minLen: 4, maxLen: 25},
+	"C15": {types: []string{"int", "string", "[]int", "any", "setint", "[][]int"}, setup: []string{"NewSlice", "NewSlice", "FromArray", "FromArray"}, ops: setAlgebraOps, minLen: 4, maxLen: 25},
 	"C16": {types: []string{"int", "string", "any"}, setup: []string{"NewASlice", "NewASlice", "FromArrayA", "FromArrayA", "NewSlice", "FromArray"}, ops: mergeOps, minLen: 4, maxLen: 25},
 	"C17": {types: []string{"int", "string", "any"}, setup: []string{"NewSlice", "FromArray", "GetIterator"}, ops: iterOps, minLen: 4, maxLen: 50},
 	"C18": {types: []string{"int", "string", "any", "[]int"}, setup: []string{"NewSlice", "FromArray", "AsArray"}, ops: aliasOps, minLen: 4, maxLen: 40},
@@ -258,6 +259,7 @@ func genPKKey(r *rng) *PK {
 // ---------- one history ----------
 
 type histResult struct {
+	modes   map[string]int
 	zeroEnc string
 	steps   []string
 	trace   []string
@@ -267,7 +269,89 @@ type histResult struct {
 	outs    map[string]int
 }
 
+func genIntSlice2(r *rng) [][]int {
+	switch r.intn(10) {
+	case 0:
+		return nil
+	case 1:
+		return [][]int{}
+	case 2:
+		return [][]int{nil}
+	case 3:
+		return [][]int{{}}
+	}
+	n := 1 + r.intn(2)
+	out := make([][]int, n)
+	for i := range out {
+		out[i] = genIntSlice(r)
+	}
+	return out
+}
+
+// values on which a collator with maximum depth 1 never panics / always has two levels to traverse
+func shallowIntSlice2(r *rng) [][]int {
+	return [][][]int{nil, {}, {nil}, {nil, nil}, {}}[r.intn(5)]
+}
+func deepIntSlice2(r *rng) [][]int {
+	out := [][]int{{r.intn(4)}}
+	if r.chance(1, 3) {
+		out = append(out, []int{r.intn(3), r.intn(3)})
+	}
+	return out
+}
+func shallowAny(r *rng) any {
+	switch r.intn(4) {
+	case 0:
+		return int64(r.intn(4))
+	case 1:
+		return smallStrings[r.intn(4)]
+	case 2:
+		return col.List[any](sharedNotation).Make()
+	default:
+		return nil
+	}
+}
+func deepAny(r *rng) any {
+	inner := col.List[any](sharedNotation).MakeFromArray([]any{int64(r.intn(4))})
+	vs := []any{inner}
+	if r.chance(1, 3) {
+		vs = append(vs, int64(r.intn(3)))
+	}
+	return col.List[any](sharedNotation).MakeFromArray(vs)
+}
+
 func makeDoer(typ string, r *rng, hashableOnly bool) opDoer {
+	d := makeDoer0(typ, r, hashableOnly)
+	switch x := d.(type) {
+	case *assocRunner[int]:
+		x.outer, x.assocMacro = x, x.macro
+	case *assocRunner[string]:
+		x.outer, x.assocMacro = x, x.macro
+	case *assocRunner[float64]:
+		x.outer, x.assocMacro = x, x.macro
+	case *assocRunner[rune]:
+		x.outer, x.assocMacro = x, x.macro
+	case *assocRunner[any]:
+		x.outer, x.assocMacro = x, x.macro
+		if !hashableOnly {
+			x.genShallow, x.genDeep = shallowAny, deepAny
+		}
+	case *assocRunner[*PK]:
+		x.outer, x.assocMacro = x, x.macro
+	case *plainRunner[[]int]:
+		x.outer = x
+	case *plainRunner[[][]int]:
+		x.outer = x
+		x.genShallow, x.genDeep = shallowIntSlice2, deepIntSlice2
+	case *plainRunner[col.SetLike[int]]:
+		x.outer = x
+	default:
+		panic("makeDoer: unknown runner")
+	}
+	return d
+}
+
+func makeDoer0(typ string, r *rng, hashableOnly bool) opDoer {
 	wide := r.chance(1, 2)
 	switch typ {
 	case "int":
@@ -301,6 +385,9 @@ func makeDoer(typ string, r *rng, hashableOnly bool) opDoer {
 	case "[]int":
 		s := newSeqRunner[[]int](r, genIntSlice, false)
 		return &plainRunner[[]int]{s}
+	case "[][]int":
+		s := newSeqRunner[[][]int](r, genIntSlice2, false)
+		return &plainRunner[[][]int]{s}
 	case "setint":
 		s := newSeqRunner[col.SetLike[int]](r, genSetInt, false)
 		return &plainRunner[col.SetLike[int]]{s}
@@ -325,6 +412,7 @@ func pickWeighted(r *rng, ops []weighted) string {
 
 func runHistory(prop string, p profile, typ string, r *rng) histResult {
 	d := makeDoer(typ, r, prop == "C03" || prop == "C14" || prop == "C16")
+	d.configure(prop)
 	b := d.base()
 	n := p.minLen + r.intn(p.maxLen-p.minLen+1)
 	if r.chance(1, 3) {
@@ -337,6 +425,9 @@ func runHistory(prop string, p profile, typ string, r *rng) histResult {
 		d.doOp(name)
 	}
 	for len(*b.steps) < n && !*b.hung {
+		if d.tryMacro() {
+			continue
+		}
 		ok := false
 		for try := 0; try < 30 && !ok; try++ {
 			ok = d.doOp(pickWeighted(r, p.ops))
@@ -345,7 +436,8 @@ func runHistory(prop string, p profile, typ string, r *rng) histResult {
 			break
 		}
 	}
-	return histResult{zeroEnc: b.zeroEnc, steps: *b.steps, trace: *b.trace, typ: typ, hung: *b.hung, ops: b.opHist, outs: b.outHist}
+	d.finish()
+	return histResult{modes: d.modesUsed(), zeroEnc: b.zeroEnc, steps: *b.steps, trace: *b.trace, typ: typ, hung: *b.hung, ops: b.opHist, outs: b.outHist}
 }
 
 // ---------- writing the case files ----------
@@ -411,12 +503,22 @@ func genPool(prop string, seed uint64, tier string, outDir string, count int) er
 	meta := genMeta{Property: prop, Seed: seed, Tier: tier, OpHist: map[string]int{}, OutHist: map[string]int{}, TypeHist: map[string]int{}, LenHist: map[string]int{}}
 	var all []histResult
 	seen := map[string]bool{}
+	modeCases := map[string]int{}
+	modeSteps := map[string]int{}
+	var caseModes [][]string
 	for i := 0; i < count; i++ {
 		typ := p.types[i%len(p.types)]
 		h := runHistory(prop, p, typ, r.fork())
 		all = append(all, h)
 		meta.Steps += len(h.steps)
 		meta.TypeHist[typ]++
+		var ms []string
+		for _, k := range sortedKeys(h.modes) {
+			ms = append(ms, k)
+			modeCases[k]++
+			modeSteps[k] += h.modes[k]
+		}
+		caseModes = append(caseModes, ms)
 		mergeHist(meta.OpHist, h.ops)
 		mergeHist(meta.OutHist, h.outs)
 		meta.LenHist[fmt.Sprintf("%02d-%02d", len(h.steps)/10*10, len(h.steps)/10*10+9)]++
@@ -431,6 +533,12 @@ func genPool(prop string, seed uint64, tier string, outDir string, count int) er
 		meta.Traces = append(meta.Traces, h.trace)
 	}
 	meta.Cases = len(all)
+	meta.Extra = map[string]any{
+		"mode_cases":      modeCases,
+		"macro_instances": modeSteps,
+		"case_modes":      caseModes,
+		"modes":           "obs:* = observation policy of the case (full: every object after every step through AsArray; fullmix: every object, view drawn per object and step among AsArray / iterator walk / index-or-key walk; sampled: each collection or iterator with probability 1/3 per step; delayed: none for 2..7 steps, then all; created objects and caller-owned Go arrays / maps are always observed; a final step observes everything). macro:* = number of cases that ran the macro at least once (macro_instances: how often): requery (the identical call again after 0..2 mutations of its receiver), aliasprobe (appends at the end of a product and of its operand after any call that returns a new object), ascbuild (collections built in ascending order, sizes that are not growth points), nilcall (a class function with a nil operand, then the same function again), limcall (class functions over a Set whose collator has a small maximum depth and nested values), bulkkeys (key sequences of length = size, size±1 with duplicates and absent keys in every position), assocwrite (SetValue on an association object handed out by AsArray, then the collection is read again), sortslice (sorter instances kept for the history sorting the caller's arrays of length 15..129)",
+	}
 	meta.Rule = "histories are generated op by op from the seeded PRNG against the live pool (boundary-biased sizes, indices, slots; receiver-aliased operands); a history counts as distinct and non-trivial when it has at least 3 ops and its op/result trace differs from every other history of the run"
 	for i := 0; i < 3 && i < len(all); i++ {
 		meta.Samples = append(meta.Samples, all[i*len(all)/3].trace)
